@@ -1,6 +1,7 @@
 import CedarVerif.Driver.Ops.Core
 import CedarVerif.Driver.Ops.Conf
 import CedarVerif.Driver.Ops.TC
+import CedarVerif.Driver.Ops.Syntax
 /-
 Line-protocol driver: one request per line on stdin, one reply per line on stdout.
 Unknown or malformed requests answer `(bad-op)`; the driver never defaults.
@@ -12,7 +13,8 @@ open CedarVerif
 def handlers : List (Sexp → Option String) := [
   Ops.handleCore,
   Ops.handleConf,
-  Ops.handleTC
+  Ops.handleTC,
+  Ops.handleSyntax
 ]
 
 def handle (x : Sexp) : String :=
